@@ -3,6 +3,7 @@ import concurrent.futures
 import json
 import os
 
+import ext.pem
 import gen
 import mockca
 import vlib
@@ -22,7 +23,10 @@ FINISH = dict(
          "per key with the declared algorithm: length per RFC 7518, the model splits R||S, OpenSSL verifies; "
          "PEM and DER round trips compared by private DER and public-key equality. Rare encodings (a "
          "coordinate or signature component with leading zero bytes) are counted. distinct = distinct keys; "
-         "every key is non-trivial.",
+         "every key is non-trivial. PEM armour (ext/pem.py): the PRIVATE KEY and PUBLIC KEY texts written for "
+         "every key = Pem.pemEncode of the PKCS#8 / SubjectPublicKeyInfo DER byte for byte, Pem.pemDecode gives "
+         "the DER back; Spec.C15.roundTripOk judges (DER before, DER after KeyPair::from_pem, text); "
+         "from_der o private_key_to_der and every re-serialisation compared by equality.",
 )
 
 WIDTH = {"ecdsa-p256": 32, "ecdsa-p384": 48, "ecdsa-p521": 66}
@@ -154,6 +158,7 @@ def check(ctx, items):
         if not (rt.get("der_equal") and rt.get("pub_equal") and rt.get("type_equal") and rt.get("pem_equal")):
             ctx.violation("%s key does not survive the PEM/DER round trip: %s" % (kt, rt), robj)
     h.close()
+    ext.pem.extend_c15(ctx, good)
     ctx.traces += len(good)
     for kt in ("ecdsa-p521", "ed25519", "rsa2048"):
         for it in good:
@@ -168,6 +173,10 @@ def replay(ctx):
     obj = r.get("replay", r)
     vlib.build_helper()
     h = mockca.Helper()
+    if obj.get("kind") == "pem":
+        rc = ext.pem.replay_c15(obj, h)
+        h.close()
+        return rc
     k = h.call({"op": "key_info", "pem": obj["key_pem"]})
     h.close()
     m = vlib.model([{"op": "jwk", "raw": k["raw"], "pub_pem": k["pub_pem"]}])[0]
